@@ -330,6 +330,59 @@ def run(chk):
     if True:
         from . import corpus
         corpus.template_rules(chk, "C16")
+    def text_verbatim():
+        """Every write_text in the workspace (the trait default and any override) writes the fragment with write_str - or forwards
+        to an inner write_text - never through a formatting call that applies the outer width/precision/alignment per fragment."""
+        n = 0
+        sites = []
+        for b in P.bodies.values():
+            if b.is_closure or b.method != "write_text" and not b.key.endswith("template::Write::write_text"):
+                continue
+            if not (b.trait == WRITE or b.key == T + "Write::write_text"):
+                continue
+            n += 1
+            cs = [c for c in b.calls(normal_only=True)]
+            if len(cs) != 1 or cs[0].callee.get("name") not in ("write_str", "write_text"):
+                return False, ("%s writes a text fragment through %s: fragments must be written verbatim (write_str); Display::fmt / write_fmt "
+                               "would apply the caller's width, precision or alignment to every fragment separately"
+                               % (b.key, [c.callee.get("name") for c in cs])), [], b.span
+            if not mir.o_is_param(b.origin(cs[0].args[1], through_calls=("deref",)), idx=2):
+                return False, "%s writes %s, not the fragment it was given" % (b.key, o_str(b.origin(cs[0].args[1]))), [], cs[0].loc
+            sites.append(cs[0].loc)
+        if n < 2:
+            raise mir.AnchorMissing("write_text implementations (found %d)" % n)
+        return True, "", sites
+    chk.ob("C16.R3:text-verbatim", "every writer writes text fragments verbatim (write_str), never through a formatting call", text_verbatim)
+
+    def hole_attrs_from_prop():
+        """The macro's template visitor builds every hole from the *property's* attributes (where #[emit::fmt] lives) and capture flag,
+        the same way whether or not the property is #[cfg]-gated."""
+        bs = [b for b in P.by_crate["emit_macros"] if "TemplateVisitor" in b.key and "visit_hole" in b.key]
+        sites = []
+        for b in bs:
+            for c in b.calls(normal_only=True):
+                if c.callee.get("name") != "template_hole_with_hook":
+                    continue
+                a0 = b.origin(c.args[0], through_calls=("deref", "as_ref", "as_slice"))
+                a3 = b.origin(c.args[3])
+                n0 = mir.o_field_path(a0)
+                n3 = mir.o_field_path(a3)
+                def from_prop(fp, fld):
+                    root, names = fp
+                    return names[-1:] == [fld] and root is not None and root[0] == "call" and root[1].callee.get("name") in ("expect", "unwrap", "get", "ok_or_else", "branch")\
+                        and any(k == "callsite" and b.blocks[v]["term"]["callee"].get("name") == "get" for k, v in common.roots(root))
+                if not from_prop(n0, "attrs") or not from_prop(n3, "captured"):
+                    return False, ("a template hole is generated from the attributes %s / capture flag %s, not from the property the hole names "
+                                   "(`field.attrs`, `field.captured`): its #[emit::fmt] flags would be lost for some call-site shapes (e.g. cfg-gated "
+                                   "properties)" % (o_str(a0), o_str(a3))), [], c.loc
+                sites.append(c.loc)
+        if not sites:
+            raise mir.AnchorMissing("template_hole_with_hook calls in TemplateVisitor::visit_hole")
+        if len(sites) != 1:
+            return False, "holes are generated at %d different sites; cfg-gated and plain properties must share one" % len(sites), [], sites[1]
+        return True, "", sites
+    chk.ob("C16.R3:hole-attrs-from-prop", "macro-generated holes take formatter attributes and capture flag from the property they name, at one site", hole_attrs_from_prop)
+
     def fmt_flags_verbatim():
         b = P.body("emit_macros::fmt::Args::to_format_args")
         shown = [c for c in b.calls(normal_only=True) if c.callee.get("name") in ("new_display", "new_debug") and "Argument" in (c.callee.get("full") or c.callee.get("path") or "")]
